@@ -199,7 +199,7 @@ impl Engine for C16 {
             &case.io,
             None,
             case.p_usize("auto_threads"),
-            max_steps(&case.tier),
+            steps_for(case),
         );
         out.absorb(&r, true);
         let n = case.records.len();
